@@ -67,6 +67,7 @@ type batch struct {
 	abandon     bool // nobody receives (unbuffered channel)
 	returned    bool
 	lazy        time.Duration // unbuffered channel whose receiver starts late
+	codec       bool          // kind "bad" because the configuration's compression writer cannot be created, not because of a row
 	recvStarted bool
 }
 
